@@ -368,6 +368,10 @@ Theorem c04_arg_index_safe : forallb (site_ok registrations) arg_index_sites = t
 Proof. exact arg_index_safe. Qed.
 Print Assumptions c04_arg_index_safe.
 
+Theorem c04_arg_index_sites_owned : forallb (site_owned registrations) arg_index_sites = true.
+Proof. exact arg_index_sites_owned. Qed.
+Print Assumptions c04_arg_index_sites_owned.
+
 Theorem c04_dynamic_index_sites_covered : dynamic_ok dynamic_sites = true.
 Proof. exact dynamic_sites_covered. Qed.
 Print Assumptions c04_dynamic_index_sites_covered.
